@@ -109,8 +109,24 @@ def stmt(r, depth, budget, out, ind):
         out.append(pad + "{")
         block(r, depth + 1, budget, out, ind)
         out.append(pad + "}")
-    else:
+    elif k < 0.975:
         out.append(pad + r.choice(["for (;;) { if (%s) break; }", "while (1) { if (%s) break; }", "do { v1++; if (%s) break; } while (1);"]) % expr(r))
+    else:
+        # shapes on which a modifying pass can change the meaning without changing more than the tokens it names
+        e1, e2 = expr(r), expr(r)
+        out.append(pad + r.choice([
+            "if (%s) if (%s) v0++; else v1--;" % (e1, e2),                                  # dangling else
+            "if (%s) { if (%s) v0++; } else v1--;" % (e1, e2),                              # braces that pin the else
+            "if (%s) { int tq = %s; (void) tq; }" % (e1, e2),                               # a declaration as the only statement
+            "if (%s) { int tz = 1; }" % e1,
+            "if (%s) { v0++; v1--; } else v2++;" % e1,                                      # two statements in front of an else
+            "while (%s) { { v0++; } v1--; break; }" % e1,
+            "for (v2 = 0; v2 < 3; v2++) ;",                                                 # an empty statement as loop body
+            "while (f0(v0) > 99) ;",
+            "if (%s) ; else v3++;" % e1,
+            "if (%s) return v0; else return v1;" % e1,
+            "return (%s) + (%s);" % (e1, e2) if False else "v0 = (%s) + (%s);" % (e1, e2),
+        ]))
 
 
 def block(r, depth, budget, out, ind):
@@ -145,6 +161,12 @@ def program(r, nfunc=3, size=18, cpp=False):
     for f in FUNCS[nfunc:]:
         out.append("int %s(int a) { return a + %d; }" % (f, r.randint(0, 9)))
     out.append("void vfun(void) { g0++; return; }")
+    out.append("void vearly(void)\n{\n  if (g0) {\n    g1++;\n    return;\n  }\n  g2++;\n  if (g1)\n    return;\n  g0--;\n}")
+    out.append("#define SPIN(c) while (1) { if (c) break; }")
+    out.append("#define FOREVER for (;;)")
+    out.append("int vspin(int a) { SPIN(a > 2) FOREVER { if (a) break; } return a; }")
+    if cpp:
+        out.append("int vtry(int a) { if (a) { try { a = f0(a); } catch (...) { a = 0; } } a++; return a; }")
     return "\n".join(out) + "\n"
 
 
